@@ -45,6 +45,10 @@ def arg_exprs(name: str, arity: int) -> List[str]:
 
 
 def make_query(name: str, arity: int, position: str) -> str:
+    if position == "intarg":
+        # every argument is an integer-typed expression: the result must still be a double column
+        args = ['""'] if name == "nan" else ['e.Muons("muons").Count()', "2", "3"][:arity]
+        return f"ds.Select(lambda e: {name}({', '.join(args)}))"
     call = f"{name}({', '.join(arg_exprs(name, arity))})"
     if position == "arith":
         call = f"({call} * 2 + m.pt()) / 3"
@@ -114,7 +118,7 @@ def check(tier: str, seed: int, t0: float, build: core.BuildStatus) -> int:
             audit = [[n, "?", [], "false", []] for n in parse_readme()]
         except Exception:  # noqa: BLE001
             audit = []
-    positions = ["alone", "arith"]
+    positions = ["alone", "arith", "intarg"]
     distinct = set()
     per_name: Dict[str, Dict[str, Any]] = {}
     for ent in audit:
@@ -166,9 +170,17 @@ def check(tier: str, seed: int, t0: float, build: core.BuildStatus) -> int:
                             what=f"{name} is documented but <cmath> {name} needs an out-pointer no query can supply; emitted {call_text} is ill-formed ({err})",
                             replay={**replay, "gxx": err}))
                         continue
+                if pos == "intarg":
+                    decl = [ln.strip() for ln in r[1].get("slots", {}).get("class_decl", []) if "EDGetTokenT" not in ln]
+                    if len(decl) != 1 or not decl[0].startswith("double "):
+                        oc.violations.append(core.Violation(
+                            key=f"c12:result-not-double:{name}",
+                            what=f"{name} of integer-typed arguments is stored in `{decl[0] if decl else '?'}` on {backend}: the value of the C++ function (a double) is truncated",
+                            replay={**replay, "class_decl": decl}))
+                        continue
                 oc.traces_validated_against_impl += 1
     oc.distinct_nontrivial = len(distinct)
-    oc.rule = ("every documented name (README list, regenerated) x 3 backends x {standalone, inside (f(..)*2+x)/3}; arity from the cmath signature table; "
+    oc.rule = ("every documented name (README list, regenerated) x 3 backends x {standalone, inside (f(..)*2+x)/3, with integer-typed arguments (column must be double)}; arity from the cmath signature table; "
                "non-trivial = every query (each goes through name resolution, emission and include handling); distinct by query text")
     oc.samples = [make_query("atan2", 2, "arith"), make_query("floor", 1, "alone"), make_query("nan", 1, "alone")]
     oc.exhaustive = True
